@@ -51,6 +51,6 @@ reg("C05", "C05", _cut("C05"), "fault_enumeration", {"quick": 240, "thorough": 6
 reg("C09", "C09", _cut("C09"), "fault_enumeration", {"quick": 240, "thorough": 7000},
     rule=RULE_WORLD + "; for each sampled statement a stop request (callback StopIteration at call k; target or "
     "feasibility tolerance first met at evaluation k) is injected at EVERY evaluation index k up to the tier's cap")
-reg("C20", "C20", _cut("C20"), "fault_enumeration", {"quick": 160, "thorough": 4000}, isolate=True, case_timeout=400,
+reg("C20", "C20", _cut("C20"), "fault_enumeration", {"quick": 160, "thorough": 2500}, isolate=True, case_timeout=400,
     rule=RULE_WORLD + "; counterfactual branching: for EVERY callback call k of the baseline the same world is re-run "
     "with StopIteration raised at call k and the result compared with what call k received")
